@@ -29,7 +29,7 @@ CHECKS = {
                 text='Sends with repeating ids (within a batch, across batches, across persist boundaries and restarts) with de-duplication on; the log the server serves must be the specification log in which only first occurrences are kept and no offset is consumed by a dropped message.',
                 ref='3.1, 7/C18'),
     'C05': dict(engine='catlens', technique='TLA+ spec IggyCatalogue (Restart = identity on the catalogue relations) + TLC model checking + TLC-generated command scripts over TCP and HTTP + TLC trace validation',
-                text='Every executed command sequence (server- and client-chosen ids, by-id and by-name addressing, deletes and re-creations) is followed by one or more in-process restarts; the normalised answers of every get/list call, the per-partition message counts and the directory tree after the restart must equal the specification relations, which a restart leaves unchanged.',
+                text='Every executed command sequence (server- and client-chosen ids, by-id and by-name addressing, deletes and re-creations) is followed by one or more in-process restarts; the normalised answers of every get/list call, the per-partition message counts and the directory tree after the restart must equal the specification relations, which a restart leaves unchanged. Histories issued by two clients AT ONCE: the lock discipline of the handlers is a TLA+ model (IggyCatalogueMT: exclusive effect, downgrade, journal; the as-found discipline - purge under the shared lock - is a negative control TLC must refute), and the interleaving it must exclude is forced on the real code through a guarded schedule point at the entry of FileState::apply: both commands acknowledged, then the restart must succeed and show the same catalogue.',
                 ref='3.4, 7/C05'),
     'C06': dict(engine='catlens', technique='TLA+ spec IggyCatalogue (sequential map over flat relations, WellFormed, OneStreamPerStep) + TLC model checking + trace validation of valid and invalid command sequences',
                 text='The specification decides for every command whether it must be refused (duplicate names/ids, unknown targets, rename onto taken names) and what it changes; after every step the sets the server reports (streams, topics, groups, message counts, users, memberships, directories, by-id = by-name lookups) must equal the relations. A panic or closed connection is a violation.',
